@@ -55,6 +55,9 @@ def default_values(cat, adt):
     b = bs[0]
     ctx, effs = cat.effects(b)
     cons = constructed(ctx, adt)
+    a_ = cat.F.adts.get(adt)
+    if a_ is not None and a_["kind"] == "enum":
+        cons = []
     if not cons:
         # enum (#[default] variant) or other shape: abstract value of the return place
         vals = {}
@@ -766,3 +769,23 @@ def codec_reports_anything(cat):
         if any(e.cls in ("callback", "heap_report") for e in effs):
             return True
     return False
+
+
+def r_retain_noshrink(F, R, cat=None):
+    """C18: no clear() path shrinks an allocation (shrink_to / shrink_to_fit / a fresh Vec)"""
+    cat = cat or Catalogue(F)
+    n = 0
+    for b in F.bodies.values():
+        if b.kind != "AssocFn" or b.name != "clear" or b.in_tests() or b.derived:
+            continue
+        if b.trait not in ("Region", "Storage", None):
+            continue
+        n += 1
+        ctx, effs = cat.effects(b)
+        bad = [e for e in effs if e.kind == "call" and e.tag[1] in ("shrink_to", "shrink_to_fit") and
+               any(c is ctx and r == ("arg", 1) for (c, (r, p)) in e.targets or ())]
+        R.saw(b)
+        R.check("R-RETAIN", b.label(), not bad, construct="clear never shrinks an allocation",
+                where=bad[0].where() if bad else b.where(),
+                detail="%s on self in clear(): reported capacity can shrink" % ["%s::%s" % e.tag for e in bad] if bad else "")
+    R.floor("R-RETAIN", "clear bodies scanned for shrinking", n, 10)
